@@ -4,7 +4,10 @@ Histories on real configuration graphs: seal (or dry-run submit) some node, then
 assignment / meta-flag / pre-task attempts on nodes of the graph interleaved with identifier requests.
 Monitor (implementation only): every attempt on a configuration reachable from a sealed one is
 rejected and identifiers of sealed configurations never change.  Correspondence: same histories on
-the Lean model (Model/IdentImpl.lean `step`)."""
+the Lean model (Model/IdentImpl.lean `step`).
+Further real-code parts (implementation only): really submitted tasks, pre-submission histories, and histories that go on
+working on configurations DERIVED from frozen ones (copies, pre-task transfers, next tasks of a chain): every frozen
+configuration must stay what it was (`derived_histories_part`)."""
 import copy
 import json
 import random
@@ -393,6 +396,14 @@ def derived_histories_part(ctx, rng, nlibs, n_derived, n_sweep):
             if c is not None:
                 cases.append(c)
     cases += [make_sweep_case(rng) for _ in range(n_sweep)]
+    extra_rule = ("; derived-configuration histories: seal / dry-run submit a node of a generated graph (frozen nodes carry 0-2 pre-tasks), then 3-8 of "
+                  "derive (copyconfig | copyconfig(k=v) | .copy() | add_pretasks_from) from a frozen node + set / setmeta / add_pretasks on the derived object, "
+                  "identifier requests, direct attempts, further seals; sweep histories: 1-3 Train stages then 2-4 Finetune / 0-2 Evaluate submissions whose "
+                  "task_outputs use the documented copyconfig / construct idioms; non-trivial = a mutation applied to a derived object / two submissions sharing a model")
+    if extra_rule not in (getattr(ctx, "rule", None) or ""):
+        ctx.rule = (getattr(ctx, "rule", None) or "") + extra_rule
+    ctx.notes.append("derived-configuration histories: `.copy()` is not applied to a configuration that reaches itself (on the unchanged code it "
+                     "runs for minutes and ends in a RecursionError; unrelated to C14)")
     recs = identlib.run_cases(ctx, libs, cases, shards=ctx.scale(8, 16), module="xv.impl.c14x_alias_worker")[None]
     for case, rec in zip(cases, recs):
         if rec["error"]:
@@ -443,6 +454,7 @@ def search(ctx):
     for case, rec in zip(cases, res):
         if not rec["error"]:
             monitor(ctx, case, rec)
+    derived_histories_part(ctx, random.Random(f"search-c14x-{ctx.seed}"), 6, 300, 60)
 
 
 def replay(ctx, obj):
